@@ -16,6 +16,7 @@ What changes against `RelC` (Proofs/SimCallEnv.lean):
   the closure's body.
 -/
 import ZygoVerif.Proofs.SimFc
+import ZygoVerif.Proofs.SimFbGen
 import ZygoVerif.Proofs.SimTr
 import ZygoVerif.Proofs.Scope
 set_option linter.unusedSimpArgs false
@@ -86,17 +87,56 @@ def FaList : List Expr → Bool
 end
 
 mutual
-/-- Fz self: the forms in TAIL POSITION of the body of the function `self` — where a call of `self` is
+/-- Fx ls: top-level statements that may `break`/`continue` one of the enclosing loops (`ls`: their
+labels, innermost first): `begin`, `cond` (tests in Ff), `let`/`letseq` (initialisers in Ff), `newScope`,
+`for` (initialiser, test, increment in Ff; the body in Fx with the loop's label added) — and everything
+of Ff. -/
+def Fx (ls : List (Option String)) (self : String) : Expr → Bool
+  | .break_ l => lblOk ls l
+  | .continue_ l => lblOk ls l
+  | .begin_ es => FxList ls self es
+  | .cond arms d => FxArms ls self arms && Fx ls self d
+  | .let_ seq bs body =>
+    (seq || decide ((bs.map (·.1)).Nodup)) && !body.isEmpty && FfBinds true self bs && FxList ls self body
+  | .newScope es => !es.isEmpty && FxList ls self es
+  | .for_ label init test incr body => Ff true self init && Ff true self test && Ff true self incr && FxList (label :: ls) self body
+  | .int v => Ff true self (.int v)
+  | .bool v => Ff true self (.bool v)
+  | .str v => Ff true self (.str v)
+  | .nilLit => Ff true self .nilLit
+  | .sym x => Ff true self (.sym x)
+  | .arr es => Ff true self (.arr es)
+  | .call f args => Ff true self (.call f args)
+  | .def_ x e => Ff true self (.def_ x e)
+  | .set_ x e => Ff true self (.set_ x e)
+  | .and_ es => Ff true self (.and_ es)
+  | .or_ es => Ff true self (.or_ es)
+  | .fn ps rest body => Ff true self (.fn ps rest body)
+  | .defn name ps rest body => Ff true self (.defn name ps rest body)
+  | .assign _ _ => false
+  | .bad _ => false
+def FxList (ls : List (Option String)) (self : String) : List Expr → Bool
+  | [] => true
+  | e :: es => Fx ls self e && FxList ls self es
+def FxArms (ls : List (Option String)) (self : String) : List (Expr × Expr) → Bool
+  | [] => true
+  | (p, b) :: r => Ff true self p && Fx ls self b && FxArms ls self r
+end
+
+
+mutual
+/-- Fz ex self: the forms in TAIL POSITION of the body of the function `self` — where a call of `self` is
 compiled as a self tail call (guard, operands inline, `prepareCall`, scopes removed, `goto 0`; F2c):
 calls of `self` (its operands free of direct calls of `self`), and `begin`/`cond`/`let`/`letseq`/`newScope`
-whose last form resp. arms are in tail position; everything else as in `Ff true self`. -/
-def Fz (self : String) : Expr → Bool
+whose last form resp. arms are in tail position; everything else as in `Ff true self`. `ex = true`: the
+statements before the last one and `for` loops may `break`/`continue` their own loops (`Fx [] self`). -/
+def Fz (ex : Bool) (self : String) : Expr → Bool
   | .call (.sym h) args => (h != "") && okHead h && FaList args && ((h != self) || FfList false self args)
-  | .begin_ es => FzList self es
-  | .cond arms d => FzArms self arms && Fz self d
-  | .newScope es => !es.isEmpty && FzList self es
+  | .begin_ es => FzList ex self es
+  | .cond arms d => FzArms ex self arms && Fz ex self d
+  | .newScope es => !es.isEmpty && FzList ex self es
   | .let_ seq bs body =>
-    (seq || decide ((bs.map (·.1)).Nodup)) && !body.isEmpty && FfBinds true self bs && FzList self body
+    (seq || decide ((bs.map (·.1)).Nodup)) && !body.isEmpty && FfBinds true self bs && FzList ex self body
   | .int v => Ff true self (.int v)
   | .bool v => Ff true self (.bool v)
   | .str v => Ff true self (.str v)
@@ -107,21 +147,21 @@ def Fz (self : String) : Expr → Bool
   | .set_ x e => Ff true self (.set_ x e)
   | .and_ es => Ff true self (.and_ es)
   | .or_ es => Ff true self (.or_ es)
-  | .for_ l i t s b => Ff true self (.for_ l i t s b)
+  | .for_ l i t s b => if ex then Fx [] self (.for_ l i t s b) else Ff true self (.for_ l i t s b)
   | .fn ps rest body => Ff true self (.fn ps rest body)
   | .defn name ps rest body => Ff true self (.defn name ps rest body)
   | _ => false
-def FzList (self : String) : List Expr → Bool
+def FzList (ex : Bool) (self : String) : List Expr → Bool
   | [] => true
-  | [e] => Fz self e
-  | e :: e' :: es => Ff true self e && FzList self (e' :: es)
-def FzArms (self : String) : List (Expr × Expr) → Bool
+  | [e] => Fz ex self e
+  | e :: e' :: es => (if ex then Fx [] self e else Ff true self e) && FzList ex self (e' :: es)
+def FzArms (ex : Bool) (self : String) : List (Expr × Expr) → Bool
   | [] => true
-  | (p, b) :: r => Ff true self p && Fz self b && FzArms self r
+  | (p, b) :: r => Ff true self p && Fz ex self b && FzArms ex self r
 end
 
 mutual
-theorem fz_of_ff : ∀ (self : String) (e : Expr), Ff true self e = true → Fz self e = true
+theorem fz_of_ff : ∀ (self : String) (e : Expr), Ff true self e = true → Fz false self e = true
   | self, .call f args, h => by
     cases f with
     | sym x =>
@@ -152,23 +192,23 @@ theorem fz_of_ff : ∀ (self : String) (e : Expr), Ff true self e = true → Fz 
   | self, .set_ x e, h => by rw [Fz]; exact h
   | self, .and_ es, h => by rw [Fz]; exact h
   | self, .or_ es, h => by rw [Fz]; exact h
-  | self, .for_ l i t s b, h => by rw [Fz]; exact h
+  | self, .for_ l i t s b, h => by rw [Fz]; simpa using h
   | self, .fn ps rest body, h => by rw [Fz]; exact h
   | self, .defn name ps rest body, h => by rw [Fz]; exact h
   | self, .assign _ _, h => by simp [Ff] at h
   | self, .bad _, h => by simp [Ff] at h
   | self, .break_ _, h => by simp [Ff] at h
   | self, .continue_ _, h => by simp [Ff] at h
-theorem fzList_of_ff : ∀ (self : String) (es : List Expr), FfList true self es = true → FzList self es = true
+theorem fzList_of_ff : ∀ (self : String) (es : List Expr), FfList true self es = true → FzList false self es = true
   | _, [], _ => by rw [FzList]
   | self, [e], h => by
     rw [FfList] at h; simp only [Bool.and_eq_true] at h
     rw [FzList]; exact fz_of_ff self e h.1
   | self, e :: e' :: es, h => by
     rw [FfList] at h; simp only [Bool.and_eq_true] at h
-    rw [FzList]; simp only [Bool.and_eq_true]
+    rw [FzList]; simp only [Bool.and_eq_true, Bool.false_eq_true, if_false]
     exact ⟨h.1, fzList_of_ff self (e' :: es) h.2⟩
-theorem fzArms_of_ff : ∀ (self : String) (arms : List (Expr × Expr)), FfArms true self arms = true → FzArms self arms = true
+theorem fzArms_of_ff : ∀ (self : String) (arms : List (Expr × Expr)), FfArms true self arms = true → FzArms false self arms = true
   | _, [], _ => by rw [FzArms]
   | self, (p, b) :: r, h => by
     rw [FfArms] at h; simp only [Bool.and_eq_true] at h
@@ -686,7 +726,8 @@ structure GoodFn (m : Nat → Nat) (s : St) (rs : Ref.St) (vid : Nat) : Prop whe
         ∧ FnChainF s rs.frames (fnOf s vid).closing k' p)
     ∧ ∃ t b tl isFn cb gs0 gs1 self, (fnOf s vid).code = fnCode t c.ps b ∧ t < s.fns.length
         ∧ (fnOf s t).closing = [some 0] ∧ (compileBegin isFn cb c.body).run gs0 = .ok ((b, tl), gs1) ∧ cb.scopes = 0
-        ∧ FnameOk self cb ∧ FzList self c.body = true ∧ GenOk gs0 gs1 s ∧ KnownOk cb gs0 c.ps
+        ∧ FnameOk self cb ∧ (∃ ex, FzList ex self c.body = true ∧ (ex = true → gs0.loopstack = [])) ∧ GenOk gs0 gs1 s
+        ∧ KnownOk cb gs0 c.ps
 
 /-- the reference closure table only grows -/
 def ClosExt (rs rs' : Ref.St) : Prop := ∀ (i : Nat) (c : Ref.Clos), rs.clos[i]? = some c → rs'.clos[i]? = some c
@@ -1512,7 +1553,8 @@ theorem GoodFn.create {m : Nat → Nat} {s : St} {rs : Ref.St} {env : Nat} (h : 
     (huser : (fnOf s t).user = false) (htlt : t < s.fns.length) (htclo : (fnOf s t).closing = [some 0])
     (hcode : ∃ b tl isFn cb gs0 gs1 self, (fnOf s t).code = fnCode t c.ps b
       ∧ (compileBegin isFn cb c.body).run gs0 = .ok ((b, tl), gs1) ∧ cb.scopes = 0
-      ∧ FnameOk self cb ∧ FzList self c.body = true ∧ GenOk gs0 gs1 s ∧ KnownOk cb gs0 c.ps)
+      ∧ FnameOk self cb ∧ (∃ ex, FzList ex self c.body = true ∧ (ex = true → gs0.loopstack = [])) ∧ GenOk gs0 gs1 s
+      ∧ KnownOk cb gs0 c.ps)
     (s₁ : St) (rs₁ : Ref.St) (hs1 : s₁ = afterClosure s t) (hrs1 : rs₁ = { rs with clos := rs.clos ++ [c] }) :
     GoodFn (mapWith m s.fns.length rs.clos.length) s₁ rs₁ s.fns.length := by
   subst hs1; subst hrs1
